@@ -512,7 +512,7 @@ def stage_data(cs, c, twins_arrays, masks, rng, nidx, tag, tws=None, fw_touched=
     fk, bk = np.asarray(fk, dtype=bool), np.asarray(bk, dtype=bool)
     # a fixed battery (list / mask / slice / scalar head with scalar tails, over the part boundaries) on every array
     # kind, then nidx random indices
-    todo = [(a, k) for a in ARRAYS for k in range(5 if a != 'timestamps' else 2)] if tag == 'after=open' else []
+    todo = [(a, k) for a in ARRAYS for k in ((0, 1, 2, 3, 4, 5, 6) if a != 'timestamps' else (0, 1, 5, 6))] if tag == 'after=open' else []
     todo += [(None, None)] * nidx
     for (arr, fixed) in todo:
         arr = arr or rng.choice(ARRAYS)
@@ -546,6 +546,16 @@ def stage_data(cs, c, twins_arrays, masks, rng, nidx, tag, tws=None, fw_touched=
                      (slice(0, n), [1, [0], [n], []], 'slice'), (n - 1, [0, n - 1], 'int'), ([0], [3, [0]], 'list')]
             tails = [[(0, [0, 0], 'int'), (0, [0, 0], 'int')], [(slice(None), [1, [], [], []], 'full'), (0, [0, 0], 'int')],
                      [(0, [0, 0], 'int'), (0, [0, 0], 'int')], [(0, [0, 0], 'int')], [(slice(None), [1, [], [], []], 'full'), (0, [0, 0], 'int')]]
+            if fixed >= 5:
+                # a strided slice that stops exactly at the first part boundary: the part after the boundary is
+                # visited although nothing is selected from it
+                b = int(sum(tks[0])) if tks else 0
+                st = 2 if fixed == 5 else 3
+                if not 0 < b < n:
+                    continue
+                heads += [None] * (fixed - 4)
+                heads[fixed] = (slice(None, b, st), [1, [], [b], [st]], 'slice')
+                tails += [[]] * (fixed - 4)
             items = [heads[fixed]] + (tails[fixed] if arr != 'timestamps' else [])
             py, wire, forms = [list(x[0]) if isinstance(x[0], list) else x[0] for x in items], [x[1] for x in items], [x[2] for x in items]
             nax = len(items)
@@ -970,7 +980,7 @@ def run(ctx):
     for f in ctx.findings:
         w = f['witness']
         run_case(ctx, w.get('cseed', 0), gen=w.get('gen'))
-    n = ctx.scale(70, 1500)
+    n = ctx.scale(70, 1100)
     seeds = [ctx.rng.randrange(1 << 30) for _ in range(n)]
     kinds = {}
     for cseed in seeds:
